@@ -28,11 +28,12 @@ def C(cid, text, *props, **kw):
 
 class Loop:
     def __init__(self, index, invariants=(), decreases=None, binder=None, ensures=(), body_entry=None,
-                 invariant_except_break=()):
+                 invariant_except_break=(), body_exit=None):
         self.index, self.invariants, self.decreases, self.binder = index, list(invariants), decreases, binder
         self.ensures = list(ensures)
         self.invariant_except_break = list(invariant_except_break)
         self.body_entry = body_entry  # proof text injected at loop body entry
+        self.body_exit = body_exit    # proof text injected at the end of the loop body
 
 
 class Closure:
@@ -92,6 +93,23 @@ class TypeItem:
 
     def __init__(self, src, kind, name, derive=None, subst=(), prefix=""):
         self.src, self.kind, self.name, self.derive, self.subst, self.prefix = src, kind, name, derive, list(subst), prefix
+
+
+class Pin:
+    """a repo item (const/static) that is NOT extracted but declared by hand (`decl`); its repo text is pinned: if the
+    normalised text differs from `expect`, the unit is undecided (the declaration may no longer describe it)"""
+
+    def __init__(self, src, kind, name, expect, decl):
+        self.src, self.kind, self.name, self.expect, self.decl = src, kind, name, expect, decl
+
+
+def check_pin(p):
+    src = open(os.path.join(REPO, p.src)).read()
+    it = find_item(p.src, src, p.kind, p.name)
+    norm = " ".join(it.text.split())
+    if norm != " ".join(p.expect.split()):
+        raise Undecided(f"pinned item {p.kind} {p.name} in {p.src} changed: `{norm[:120]}`")
+    return p.decl, {"key": f"{p.src}::{p.kind} {p.name}", "src": p.src, "line": it.line, "sha256": it.sha256, "mode": "pinned"}
 
 
 class Raw:
@@ -529,6 +547,9 @@ def annotate_fn(f, override_requires=None, canary=False, drop_body=False):
         ed.insert(toks[lb].start, ann + "        ")
         if lp.body_entry:
             ed.insert(toks[lb].end, f"\n/*@B INJ {fid}#loop{lp.index}entry*/ " + lp.body_entry + " /*@E*/\n")
+        if lp.body_exit:
+            lcl = match_close(toks, lb)
+            ed.insert(toks[lcl].start, f"\n/*@B INJ {fid}#loop{lp.index}exit*/ " + lp.body_exit + " /*@E*/\n")
         if canary == "loops":
             ed.insert(toks[lb].end, " proof { " + mark("CANARY", f"{fid}#loop{lp.index}", "assert(false);") + " } ")
 
